@@ -471,7 +471,7 @@ _quick("C09", "C09_twowriters", "two writers in Aof.PushLock, the harness as sch
 
 _quick("C04", "C04_window", "A holds, B is queued (symbolic priority flag and priority), A unlocks; a third client's LOCK (symbolic priority flag and priority) arrives between the release of the key's mutex and the wake-up pass (sent from inside the unlock's reply callback, which runs exactly there): unless its priority is strictly higher it must not be granted ahead of B", ["-witness", "1"], reach=["no-bypass"])
 
-_quick("C01", "C01_tombstone", "a key whose hold has ended and whose manager lives on through the wheel's reference; right before a new request acquires the manager's mutex (vfLockHook) the sweep retires the manager; the request is granted; a third request (Count 0, Timeout 0) must be refused and the holder's unlock accepted — for an ordinary key and for the key of 16 zero bytes", [], reach=["manager-lingers"], native=False)
+_quick("C01", "C01_tombstone", "a key whose hold has ended and whose manager lives on through the wheel's reference; right before a new request acquires the manager's mutex (vfLockHook) the sweep retires the manager; the request is granted; the retired manager stays in the pool or is handed to a request for another key first; the request is granted on ITS key; a third request (Count 0, Timeout 0) must be refused and the holder's unlock accepted — for an ordinary key and for the key of 16 zero bytes", [], reach=["manager-lingers", "reused"], native=False)
 
 _quick("C05", "C05_race", "a queued request (T = 3 s) behind a holder; in the deadline tick, right before the k-th acquisition of the key's mutex (k = 1..4, vfLockHook) the holder's UNLOCK hands the key over: exactly one terminal reply; SUCCED means the request holds the key afterwards (no TIMEOUT after a grant), TIMEOUT means it holds nothing", [], reach=["end", "raced", "granted"], native=False)
 _quick("C16", "C16_twodb", "a log shared by two databases (ids 0 and 1, or 0 and 3): every program of 4 persisted operations out of {LOCK / UNLOCK in the first / in the second database}, rotation, the real compaction, restart: each database holds exactly what it held", ["-witness", "50"], reach=["end", "held"])
